@@ -11,6 +11,7 @@ import threading
 from typing import List, Optional
 
 import httpx
+import pydantic
 from hypothesis import strategies as st
 
 from vf import baseclient as bc
@@ -532,7 +533,37 @@ def run_history(case, variant):
                                            f"{canon_request(captured[n0])[:200]} vs {canon_request(cap[0])[:200]}"))
     if shared_kwargs != before:
         bad.append(("caller_kwargs_mutated", f"the caller's kwargs were changed by the calls: {shared_kwargs} (before {before})"))
+    # the caller's VARIABLES object sent twice (a retry): it must come back unchanged and the second request must
+    # equal the first
+    if case["variables"] is not None:
+        uploads = make_uploads(case)
+        variables = {k: instantiate(v, uploads) for k, v in case["variables"].items()}
+        frozen = freeze(variables)
+        reqs = []
+        for _ in range(2):
+            n0 = len(captured)
+            _resp, exc = bc.execute(client, variant, case["query"], case["operation_name"], variables, dict(shared_kwargs))
+            reqs.append((canon_request(captured[n0]) if len(captured) > n0 else None, type(exc).__name__ if exc else None))
+        if freeze(variables) != frozen:
+            bad.append(("caller_variables_mutated", f"the caller's variables were changed by execute(): {freeze(variables)!r}"[:300] +
+                        f" (before {frozen!r})"[:200]))
+        if reqs[0] != reqs[1]:
+            bad.append(("retry_request", f"the same variables object sent twice gave different requests: {str(reqs[0])[:160]} vs {str(reqs[1])[:160]}"))
     return bad
+
+
+def freeze(obj):
+    """comparable image of a variables tree; Upload objects by identity"""
+    base = bc.base_model()
+    if isinstance(obj, base.Upload):
+        return ("upload", id(obj))
+    if isinstance(obj, dict):
+        return ("dict", tuple((k, freeze(v)) for k, v in obj.items()))
+    if isinstance(obj, (list, tuple)):
+        return ("list", tuple(freeze(v) for v in obj))
+    if isinstance(obj, pydantic.BaseModel):
+        return ("model", type(obj).__name__, tuple((n, freeze(getattr(obj, n))) for n in type(obj).model_fields), tuple(sorted(obj.model_fields_set)))
+    return ("leaf", repr(obj))
 
 
 def run_case(case, scratch):
